@@ -61,6 +61,18 @@ def cases(tier, seed):
   for alpha in ("auto", "auto_po2"):
     out.append({"fam": "bt", "cls": "ternary", "kw": {"alpha": alpha}})
     out.append({"fam": "bt", "cls": "stochastic_ternary", "kw": {"alpha": alpha}, "twin": "ternary"})
+  # options the stochastic classes share with their deterministic parents (the twin is built from the
+  # same constructor arguments, not from the instance's own attributes)
+  for alpha in ("auto", "auto_po2"):
+    for unrolls in (1, 2, 3):
+      out.append({"fam": "bt", "cls": "stochastic_ternary", "kw": {"alpha": alpha, "number_of_unrolls": unrolls},
+                  "twin": "ternary"})
+    out.append({"fam": "bt", "cls": "stochastic_ternary",
+                "kw": {"alpha": alpha, "temperature": 2.0, "use_real_sigmoid": False}, "twin": "ternary",
+                "twin_drop": ["temperature", "use_real_sigmoid"]})
+    out.append({"fam": "bt", "cls": "stochastic_binary",
+                "kw": {"alpha": alpha, "temperature": 2.0, "use_real_sigmoid": False}, "twin": "binary",
+                "twin_drop": ["temperature", "use_real_sigmoid"]})
   for alpha, th in ((None, None), (1.0, 0.5), (2.0, None)):
     out.append({"fam": "bt", "cls": "stochastic_ternary", "kw": {"alpha": alpha, "threshold": th}, "twin": "ternary",
                 "inference_only": True})
@@ -168,7 +180,8 @@ def run_case(case, ctx):
       K.set_learning_phase(0)
       stream.set_real(case["seed"])
       ok, qs = ctx.call(dict(base, phase="inference"), qenv.build, {"cls": cls, "kw": stoch_kw})
-      ok2, qd = ctx.call(dict(base, phase="inference"), qenv.build, {"cls": twin_cls, "kw": kw})
+      twin_kw = {k: v for k, v in kw.items() if k not in case.get("twin_drop", ())}
+      ok2, qd = ctx.call(dict(base, phase="inference"), qenv.build, {"cls": twin_cls, "kw": twin_kw})
       if not (ok and ok2):
         return
       ok, ya = ctx.call(dict(base, phase="inference"), qenv.call, qs, x)
